@@ -304,8 +304,8 @@ Example run_first_packet_len_3 : out (entry md5 true ex_cfg false ex_salt [0;0;0
 Proof. vm_compute. reflexivity. Qed.
 Example run_first_packet_len_5 : out (entry md5 true ex_cfg false ex_salt [0;0;0;5;0]%N ex_env) = TaskPanic.
 Proof. vm_compute. reflexivity. Qed.
-Example run_unterminated_parameter :     (* "user\0alice" without the final NUL: parse_params runs off the end *)
-  out (entry md5 true ex_cfg false ex_salt [0;0;0;18;0;3;0;0;117;115;101;114;0;97;108;105;99;101]%N ex_env) = TaskPanic.
+Example run_unterminated_parameter :     (* "user\0alice" without a terminator: Err(ClientBadStartup), no panic (5c1953d) *)
+  out (entry md5 true ex_cfg false ex_salt [0;0;0;18;0;3;0;0;117;115;101;114;0;97;108;105;99;101]%N ex_env) = Rejected WBadStartup.
 Proof. vm_compute. reflexivity. Qed.
 Example first_packet_alloc_max : startup_alloc [127;255;255;255]%N = 2147483643.
 Proof. vm_compute. reflexivity. Qed.
